@@ -13,7 +13,7 @@ import time
 
 from hypothesis import strategies as st
 
-from vlib.core import Info, Skip, Sub, fail
+from vlib.core import Info, Skip, Sub, Violation, fail
 
 PROPERTY = "C19"
 LEVEL = "fault_enumeration"
@@ -122,9 +122,14 @@ class Peer(object):
                     return
                 act = self.script.popleft() if self.script else "ok_ka"
                 req = json.loads(body)
-                token = req["params"][0]
+                if isinstance(req, list):
+                    # a batch of echo calls: answered entry by entry
+                    token = req[0]["params"][0]
+                    good = json.dumps([{"jsonrpc": "2.0", "id": e["id"], "result": e["params"][0]} for e in req], ensure_ascii=False).encode("utf-8")
+                else:
+                    token = req["params"][0]
+                    good = json.dumps({"jsonrpc": "2.0", "id": req["id"], "result": token}, ensure_ascii=False).encode("utf-8")
                 self.consumed.append((act, token))
-                good = json.dumps({"jsonrpc": "2.0", "id": req["id"], "result": token}, ensure_ascii=False).encode("utf-8")
 
                 def send(status, payload, extra=b"", length=True):
                     h = b"HTTP/1.1 " + status + b"\r\n" + extra
@@ -157,7 +162,7 @@ class Peer(object):
                     # an error status whose body is typed and shaped as the JSON-RPC reply to this very request
                     send(b"503 Service Unavailable", good, b"Content-Type: application/json-rpc\r\n")
                 elif act == "st_json_error":
-                    err = json.dumps({"jsonrpc": "2.0", "id": req["id"], "error": {"code": -32603, "message": "Server error"}}).encode()
+                    err = json.dumps({"jsonrpc": "2.0", "id": (req[0] if isinstance(req, list) else req)["id"], "error": {"code": -32603, "message": "Server error"}}).encode()
                     send(b"500 Internal Server Error", err, b"Content-Type: application/json-rpc; charset=utf-8\r\n")
                 elif act == "st_nolen_close":
                     send(b"500 Err", b"oops " + good, length=False)
@@ -237,7 +242,26 @@ def run_script(peer, script, tail=3):
         url = "unix+http://" + peer.path
         host_handler = None
     proxy = J.ServerProxy(url)
+    # one script in three makes its calls as batches of one entry (MultiCall): the same exchanges on the wire
+    batches = (len(script) * 5 + sum(len(a) for a in script)) % 3 == 0
+    failed_batches = []
+
+    def one_call(token):
+        if not batches:
+            return proxy.echo(token)
+        mc = J.MultiCall(proxy)
+        mc.echo(token)
+        try:
+            res = mc()
+        except Exception:
+            failed_batches.append((mc, token))
+            raise
+        if res is None:
+            raise Violation("C19/wrong-value-result", "a batch holding one call returned None instead of its results or an exception")
+        # (an empty answer leaves the batch without results: reading the call's position raises IndexError - the call "raises")
+        return res[0]
     records = []
+    judged = None
     pending = collections.deque(list(script) + ["ok_ka"] * tail)
     tail_start = None
     ncalls = 0
@@ -260,11 +284,13 @@ def run_script(peer, script, tail=3):
             before = len(peer.consumed)
             rec = {"token": token, "refuse": refuse}
             try:
-                rec["value"] = call_with_watchdog(lambda: proxy.echo(token), 30, "proxy call")
+                rec["value"] = call_with_watchdog(lambda: one_call(token), 30, "proxy call")
                 rec["outcome"] = "returned"
             except Hang as h:
                 rec["outcome"] = "hang"
                 rec["stacks"] = h.stacks
+            except Violation:
+                raise
             except Exception as ex:
                 rec["outcome"] = "raised"
                 rec["exc"] = ex
@@ -281,6 +307,22 @@ def run_script(peer, script, tail=3):
             records.append(rec)
             if rec["outcome"] == "hang":
                 break
+        # the faults are over: a batch that failed because of one is sent again as it is - it returns its results (or
+        # raises), it does not come back empty-handed
+        settle(peer)
+        judged = len(peer.consumed)      # what the calls above made the peer do; the exchange below is judged on its own
+        if failed_batches and records and records[-1]["outcome"] == "returned":
+            mc, token = failed_batches[0]
+            peer.script.clear()
+            try:
+                res = call_with_watchdog(mc, 30, "batch sent again")
+            except Hang:
+                res = Hang
+            except Exception:
+                res = Exception
+            if res is None or (res not in (Hang, Exception) and list(res)[:1] != [token]):
+                raise Violation("C19/wrong-value-result", "a batch that had failed on a transport fault was sent again once the faults were over and gave %r instead of [%r]" % (
+                    None if res is None else list(res), token))
     finally:
         try:
             proxy("close")()
@@ -289,7 +331,7 @@ def run_script(peer, script, tail=3):
     settle(peer)
     # attribute the consumed actions to the calls by the token each request carried
     for rec in records:
-        mine = [(a, t) for a, t in peer.consumed if t == rec["token"]]
+        mine = [(a, t) for a, t in peer.consumed[:judged] if t == rec["token"]]
         rec["consumed"] = [a for a, _ in mine]
         rec["consumed_tokens"] = [t for _, t in mine]
     return records, (tail_start if tail_start is not None else len(records)), host_handler
